@@ -318,3 +318,20 @@ package nflog
 //@   at call state).MarshalBinary assert [state-of-this-store-under-lock] arg0 == l.st && count("Mutex).Lock") == 1 && count("Mutex).Unlock") == 0
 //@   ensures [full-state] result0 == ret("state).MarshalBinary") && result1 == ret1("state).MarshalBinary")
 //@   noeffect state).MarshalBinary
+
+// the floating-point kind of receiver data, like the other two kinds: what is set is what is read back under the key
+//@ spec dblAt(s *Store, key string) bool = key in s.data && typeis(s.data[key].Value, *pb.ReceiverDataValue_DoubleVal) && unbox(s.data[key].Value, *pb.ReceiverDataValue_DoubleVal) != nil
+//@ func (*Store).SetFloat
+//@   props C10
+//@   requires storeOK(s)
+//@   ensures [stored] dblAt(s, key) && unbox(s.data[key].Value, *pb.ReceiverDataValue_DoubleVal).DoubleVal == v
+//@   ensures [others] forall k string :: k != key ==> (k in s.data) == old(k in s.data) && s.data[k] == old(s.data[k])
+//@   ensures [ok] storeOK(s)
+//@   assigns s.data[*]
+//@ func (*Store).GetFloat
+//@   props C10
+//@   requires storeOK(s)
+//@   assumes forall k string :: k in s.data && typeis(s.data[k].Value, *pb.ReceiverDataValue_DoubleVal) ==> unbox(s.data[k].Value, *pb.ReceiverDataValue_DoubleVal) != nil
+//@   ensures [found-iff-a-float-is-stored] result1 == (key in s.data && typeis(s.data[key].Value, *pb.ReceiverDataValue_DoubleVal))
+//@   ensures [value] result1 ==> result0 == unbox(s.data[key].Value, *pb.ReceiverDataValue_DoubleVal).DoubleVal
+//@   assigns nothing
